@@ -7,12 +7,61 @@ VERIF = os.path.dirname(os.path.dirname(os.path.abspath(__file__)))
 TECH = 'Verus contracts on functions extracted verbatim from /repo (deductive, Z3)'
 
 CHECKS = {
+    'C05': dict(
+        text='Proof, per function under contract, of panic-freedom (Verus safety obligations: overflow, bounds, unwrap, unreachable, '
+             'str slicing on char boundaries, callee preconditions) for every input satisfying the stated tree facts, plus: '
+             'format_source_inspect refuses iff the root is erroneous; format_with_width returns its input on refusal.',
+        note='Partial w.r.t. the whole property: functions not (yet) under contract, recursion through closures (termination), stack/heap '
+             'exhaustion and hangs inside the pretty renderer are not covered. Trusted: Verus/Z3, shims of typst-syntax/pretty/std '
+             '(listed in evidence), rewrite rules R1-R21.',
+        ref='DESIGN.md 5/C05', technique=TECH),
+    'C07': dict(
+        text='Proof: the attribute pass marks exactly the spans given by the declarative spec marks_sub (directive comments and the first '
+             'sibling after a directive that is not whitespace, `#` or a comment; marked nodes are not descended into); '
+             'is_format_disabled reads that mark; convert_expr / convert_pattern / convert_math / convert_code_block emit '
+             'Text(full source text) when the node is marked.',
+        note='Not covered: that every syntactic position routes through one of the four entry points (call-graph fact). Trusted: FxHashMap '
+             'entry/or_default shim, str::contains shim, typst-syntax tree model, definitional axiom of marks_sub.',
+        ref='DESIGN.md 5/C07', technique=TECH),
+    'C10': dict(
+        text='Proof for leaf emission (leaf converters return Text(token text)) and raw rebuild; the call-site precondition of the '
+             'post-processing pass (no rendered line inside a literal ends in a blank) is a KNOWN FINDING (C10-F1).',
+        note='Known finding C10-F1 is reported, not proved. Trusted: shims, renderer not modelled.',
+        ref='DESIGN.md 5/C10', technique=TECH),
     'C11': dict(
-        text='Full proof of the property as the postcondition of the last function applied: strip_trailing_whitespace '
-             'ensures hygienic(result) for every input string, and format_source_inspect returns exactly its result.',
+        text='Full proof of the property as the postcondition of the last function applied: strip_trailing_whitespace ensures '
+             'hygienic(result) for every input string, and format_source_inspect / format_source / format_content return exactly its result.',
         note='Trusted: Verus/Z3; assumed contracts of str::lines (segments contain no \\n; non-empty input has a segment), '
-             'str::trim_end (prefix, last char not Unicode White_Space), String::with_capacity/push/push_str; rustc semantics.',
+             'str::trim_end (prefix, last char not Unicode White_Space), String::with_capacity/push/push_str.',
         ref='DESIGN.md 5/C11', technique=TECH),
+    'C13': dict(
+        text='Proof of no-panic for every (start <= end) range on character boundaries incl. ranges past the end (trim_range and '
+             'count_spaces_after_last_newline preconditions discharged at the call site), of the covering-node search against the '
+             'declarative spec cover_sub (minimal Markup/Expr/Pattern node, lexical mode from Markup/CodeBlock/Equation ancestors only), '
+             'and of refusal for erroneous covering nodes.',
+        note='Out of reach: that splicing the result yields an equivalent tree (needs the parser). Trusted: LinkedNode/Source shims, '
+             'str slicing shim with Rust\'s panic conditions, UTF-8 facts stated in shims/std_str.rs.',
+        ref='DESIGN.md 5/C13', technique=TECH),
+    'C14': dict(
+        text='Proof of the safety half: every write (std::fs::write) and every print of text carries the precondition !check, discharged '
+             'on every path of format_one / format_all; FormatStatus::bitor_assign is an OR; main maps (Err | Changed&&check) to failure; '
+             'format_one status is Changed iff the content it read differs from its formatted form; erroneous input counts as unchanged.',
+        note='Out of reach: mtimes, sequences of invocations, format_many accumulation (closure captures &mut: contract assumed). '
+             'Trusted: environment shims (shims/cli.rs), clap conflicts_with, single argument vector the_args().',
+        ref='DESIGN.md 5/C14', technique=TECH),
+    'C15': dict(
+        text='Proof of the safety half: what is written to a path is the library result for exactly what was read from that path, only if '
+             'it differs, only for eligible entries (named on the command line, or walked regular *.typ entry not hidden), never in check '
+             'mode; the walk filter accepts the root entry.',
+        note='Out of reach: completeness (every eligible changed file IS written), error isolation in format_many, mtimes. Trusted: '
+             'walkdir/std::fs shims.',
+        ref='DESIGN.md 5/C15', technique=TECH),
+    'C16': dict(
+        text='Proof: to_config is field-exact; Config::default/new are the documented defaults; every text-emitting call satisfies '
+             'may_print (exactly the library result for the input read, or the input itself when erroneous; no added newline); '
+             'format_with_width returns the input on refusal.',
+        note='Multi-file order in format_many is read, not proved (assumed contract). Trusted: environment shims.',
+        ref='DESIGN.md 5/C16', technique=TECH),
 }
 
 NOT_APPLICABLE = {
